@@ -38,11 +38,12 @@ def run(ctx):
     c09_impl.gift_drops(ctx)
     model_ok = ok
     if not ok:
-        model_ok, _ = ctx.coq_build(["lib/Refs.vo", "lib/Gifts.vo"])
+        model_ok, _ = ctx.coq_build(["lib/Refs.vo", "lib/Gifts.vo", "lib/Conn.vo"])
     if model_ok:
         R.correspond(ctx, "C09", results)
     from harness import gifts_impl
     gifts_impl.check_gifts(ctx, "C09", model_ok)
+    c09_impl.conn_tables(ctx, model_ok)
     # a failing input that is a listed known finding does not explain a broken proof
     known = common.load_known()
     fresh = [f for f in ctx.failures[before:] if not (f["has_input"] and known.get(("C09", f["sig"]), {}).get("status") == "known")]
